@@ -254,3 +254,190 @@ def run_case(case):
                 'sets': {'states_at_cut': [state_at_cut]}}
     finally:
         rig.close()
+
+
+# ------------------------------------------------------------------------------------------------
+# Association-level endings (P2): the real ClientAE / AE with all their threads against a scripted
+# peer that goes silent or never closes at the points where the standard arms ARTIM.
+
+from .. import peers as _peers           # noqa: E402
+from ..world import SimWorld as _SimWorld  # noqa: E402
+
+ASSOC_SCENARIOS = ['client:release-unanswered', 'client:peer-never-closes-after-rp',
+                   'client:silent-after-connect', 'client:rj-never-closes',
+                   'client:abort-peer-never-closes', 'client:echo-unanswered',
+                   'server:silent-after-connect', 'server:half-rq', 'server:never-closes-after-release',
+                   'server:abort-never-closes', 'server:silent-after-ac', 'server:rejected-never-closes']
+_orig_cases = cases
+
+
+def cases(tier, seed):   # noqa: F811
+    for c in _orig_cases(tier, seed):
+        yield c
+    reps = 3 if tier == 'quick' else 60
+    for r in range(reps):
+        for sc in ASSOC_SCENARIOS:
+            yield dict(assoc=sc, seed=seed * 31 + r, convo='-', cut=None, ending=None, kill=None)
+
+
+_orig_run_case = run_case
+
+
+def run_case(case):      # noqa: F811
+    if case.get('assoc'):
+        return _assoc_case(case)
+    return _orig_run_case(case)
+
+
+def _assoc_case(case):
+    from pynetdicom2 import applicationentity, sopclass, exceptions
+    sc = case['assoc']
+    world = _SimWorld('c13a/%s/%s' % (case['seed'], sc))
+    sim = world.sim
+    viol = []
+    ADDR = ('peerhost', 104)
+    TMO = 15.0
+
+    def v(rule, detail=''):
+        viol.append({'sig': 'C13 %s scenario=%s' % (rule, sc),
+                     'detail': '%s\ncase %r\nblocked %r\nhandler errors %r' % (
+                         detail, case, sim.blocked_report(), world.handler_errors[:1])})
+    try:
+        out = {}
+        side, what = sc.split(':')
+        if side == 'client':
+            class Acc(_peers.ScriptedAcceptor):
+                def serve(self):
+                    while True:
+                        p = self.read_pdu()
+                        if p is None or p == 'timeout':
+                            return
+                        k = p['kind']
+                        if k == 'P-DATA-TF':
+                            for m in self.feed_pdata(p):
+                                if what != 'echo-unanswered':
+                                    self.send_message(m['pcid'], {
+                                        0x0002: rc.VERIFICATION, 0x0100: 0x8030,
+                                        0x0120: m['fields'].get(0x0110), 0x0800: 0x0101, 0x0900: 0})
+                        elif k == 'A-RELEASE-RQ':
+                            if what == 'release-unanswered':
+                                continue
+                            self.send(rc.enc_release_rp())
+                            # never closes: just keeps the connection and reads
+                        elif k == 'A-ABORT':
+                            continue      # never closes
+            reply = 'ac'
+            if what == 'silent-after-connect':
+                reply = 'silent'
+            elif what == 'rj-never-closes':
+                reply = 'rj'
+
+            class Acc2(Acc):
+                def wait_close(self):
+                    # after sending the RJ: never close, never read EOF actively
+                    self.sim.wait(lambda: False, 10000.0, 'peer-idle')
+            world.serve_peer(ADDR, lambda sock: Acc2(sim, sock, reply=reply))
+            cli = world.make_ae(applicationentity.ClientAE, 'CLI', [rc.IMPLICIT_LE], 16384)
+            cli.timeout = TMO
+            cli.add_scu(sopclass.verification_scu)
+
+            def user():
+                t0 = sim.now
+                try:
+                    with cli.request_association({'aet': 'SRV', 'address': ADDR[0],
+                                                  'port': ADDR[1]}) as assoc:
+                        out['assoc'] = assoc
+                        if what == 'abort-peer-never-closes':
+                            assoc.abort(1)
+                        elif what == 'echo-unanswered':
+                            assoc.get_scu(rc.VERIFICATION)(1)
+                        else:
+                            out['st'] = int(assoc.get_scu(rc.VERIFICATION)(1))
+                except Exception as e:  # pylint: disable=broad-except
+                    out['exc'] = e
+                out['took'] = sim.now - t0
+            ut = world.spawn(user, 'user')
+            bound = 2 * TMO + ARTIM + 3.0
+            world.run(tmax=bound + 60)
+            if not ut.done:
+                v('user-call-never-returns', 'blocked at %s' % ut.kind)
+            elif out.get('took', 0) > bound:
+                v('user-call-exceeds-bound', 'took %.1f s (bound %.1f)' % (out['took'], bound))
+            # give ARTIM a chance, then look at what is left
+            sim.run_for(ARTIM + 2.0)
+        else:
+            services = []
+
+            class Srv(applicationentity.AE):
+                def on_association_request(self, asce, assoc):
+                    if what == 'rejected-never-closes':
+                        raise exceptions.AssociationRejectedError(1, 1, 1)
+            srv = world.make_ae(Srv, 'SRV', 11112, [rc.IMPLICIT_LE], 16384)
+            srv.timeout = TMO
+            srv.add_scp(sopclass.verification_scp)
+            world.serve_ae(srv, ADDR)
+
+            def script(peer):
+                if what == 'silent-after-connect':
+                    peer.sock.connect(ADDR)
+                    sim.wait(lambda: False, 10000.0, 'peer-idle')
+                    return
+                if what == 'half-rq':
+                    peer.sock.connect(ADDR)
+                    rq = rc.enc_assoc_rq(contexts=((1, rc.VERIFICATION, (rc.IMPLICIT_LE,)),))
+                    peer.send(rq[:30])
+                    sim.wait(lambda: False, 10000.0, 'peer-idle')
+                    return
+                p = peer.associate()
+                if what in ('silent-after-ac', 'rejected-never-closes'):
+                    sim.wait(lambda: False, 10000.0, 'peer-idle')
+                    return
+                peer.send_message(1, {0x0002: rc.VERIFICATION, 0x0100: 0x0030, 0x0110: 1,
+                                      0x0800: 0x0101})
+                peer.read_message(timeout=30.0)
+                if what == 'never-closes-after-release':
+                    peer.send(rc.enc_release_rq())
+                    peer.read_pdu(timeout=30.0)
+                else:
+                    peer.send(rc.enc_abort(0, 0))
+                sim.wait(lambda: False, 10000.0, 'peer-idle')
+            peer = _peers.ScriptedRequestor(sim, world.net, ADDR,
+                                            ((1, rc.VERIFICATION, (rc.IMPLICIT_LE,)),),
+                                            script=script)
+            peer.run_orig = peer.run
+
+            def run_noclose():
+                try:
+                    peer.script(peer)
+                except _peers.PeerClosed:
+                    pass
+            world.spawn(run_noclose, 'peer', role='peer')
+            bound = 2 * TMO + ARTIM + 3.0
+            sim.run_for(bound)
+            acc = world.acceptor_tasks
+            if not acc:
+                v('connection-never-handled')
+            elif not all(t.done for t in acc):
+                v('handler-thread-still-running-after-bound',
+                  'blocked at %r' % [t.kind for t in acc if not t.done])
+        # common: no provider thread left running, no library-side socket left open
+        duls = [t for t in sim.tasks if t.role == 'dul']
+        crashed = [t for t in duls if t.exc is not None]
+        if crashed:
+            v('provider-died exc=%s' % type(crashed[0].exc).__name__, crashed[0].tb)
+        alive = [t for t in duls if not t.done]
+        if alive:
+            v('provider-thread-still-running', 'blocked at %r' % [t.kind for t in alive])
+        lib_socks = [s for s in world.net.sockets
+                     if s.connected and not s.closed and s.name.startswith(
+                         'sock' if side == 'client' else 'srv')]
+        if lib_socks:
+            v('connection-left-open', 'library-side sockets still open: %r' % lib_socks)
+        st = dict(sim.stats)
+        st['fault.peer_silence'] = 1
+        return {'violations': viol, 'stats': st, 'digest': sim.digest.hexdigest(),
+                'sched_sig': 'assoc/%s/%s' % (sc, case['seed']), 'steps': sim.steps,
+                'vsecs': sim.now - 1000.0, 'nontrivial': True,
+                'sample': {'case': case, 'took': out.get('took'), 'exc': repr(out.get('exc'))}}
+    finally:
+        world.close()
